@@ -59,7 +59,6 @@ type rotateFile struct {
 
 func (f *rotateFile) rotate() error {
 	f.f.Sync()
-	f.f.Close()
 
 	now := time.Now()
 
@@ -85,6 +84,12 @@ func (f *rotateFile) reopen() error {
 	file, err := os.OpenFile(f.path, os.O_CREATE|os.O_WRONLY, f.mode)
 	if err != nil {
 		return err
+	}
+
+	// the previous descriptor stays in use until its replacement is open,
+	// a failed rename or open must not leave a closed file behind
+	if f.f != nil {
+		f.f.Close()
 	}
 
 	f.f = file
